@@ -1,9 +1,11 @@
 package main
 
 import (
+	"bytes"
 	"encoding/binary"
 	"fmt"
 
+	"github.com/splunk/stef/go/otel/otelstef"
 	"github.com/splunk/stef/go/pkg"
 
 	"verif/harness/internal/recgen"
@@ -107,6 +109,7 @@ func runLimitsMode() {
 		o.stat()
 		limitsCase(name, root, o, cfg, p, r)
 	}
+	frozenFloodCases()
 }
 
 func limitsCase(name string, root *rootSpec, o wopts, cfg *recgen.Cfg, p genParams, r *rng.R) {
@@ -276,6 +279,23 @@ func limitsCase(name string, root *rootSpec, o wopts, cfg *recgen.Cfg, p genPara
 						bytesLB += (len(l.Val)-1)/2 + 16
 					}
 				}
+				// dictionary-encoded STRUCT values: a value not yet in its dictionary in this epoch is
+				// encoded in full and added; the writer accounts at least unsafe.Sizeof(struct) for
+				// it, which is at least 8 bytes per field, and the reader retains the entry.
+				var dstructs []recgen.DictStruct
+				recgen.DictStructs(node, "", &dstructs)
+				for _, ds := range dstructs {
+					cur["\x01"+ds.Path] = ds.Repr
+					if pv, ok := prev["\x01"+ds.Path]; ok && pv == ds.Repr {
+						continue
+					}
+					key := "\x01" + ds.Dict + "\x00" + ds.Repr
+					if !epoch[key] {
+						epoch[key] = true
+						bytesLB += 8 * ds.Fields
+						stats["dict-struct-entries"]++
+					}
+				}
 				prev = cur
 				rec++
 				if bytesLB >= int(o.dictSize) {
@@ -327,5 +347,85 @@ func limitsCase(name string, root *rootSpec, o wopts, cfg *recgen.Cfg, p genPara
 	}
 	if stats["frames"]%7 == 0 {
 		sample("case=%s root=%s opts=%s records=%d frames=%d framesUnlimitedF=%d dictRestarts=%d", name, root.name, o, len(res.truths), len(frames), len(fB), limitRestarts)
+	}
+}
+
+// frozenFloodCases (C08): many DISTINCT dictionary-struct values that reach the encoder already
+// frozen (shared by pointer), built from a tiny string vocabulary so that the string
+// dictionaries never reach the limit on their own. Every new dictionary entry must be
+// accounted against MaxTotalDictSize (the reader has to retain it), so with a limit L the
+// writer must announce a dictionary restart at the latest after ceil(L / (8*fields)) + 1 new
+// entries (a struct occupies at least 8 bytes per field).
+func frozenFloodCases() {
+	for ci, L := range []uint{40, 200, 1000} {
+		for _, relay := range []bool{false, true} {
+			name := fmt.Sprintf("lim-frozen-%d-%v", ci, relay)
+			note("case %s", name)
+			note("nontrivial %x", fnv(name))
+			cl := &chunkLog{}
+			w, err := otelstef.NewMetricsWriter(cl, pkg.WriterOptions{MaxTotalDictSize: L})
+			if err != nil {
+				propFail("C08 frozen-flood-writer-error case=%s %v", name, err)
+				continue
+			}
+			n := int(L)/8 + 30
+			var src *otelstef.MetricsReader
+			if relay {
+				// records relayed from a reader: decoders freeze every dictionary value
+				cl0 := &chunkLog{}
+				w0, _ := otelstef.NewMetricsWriter(cl0, pkg.WriterOptions{})
+				for i := 0; i < n; i++ {
+					w0.Record.Resource().SetDroppedAttributesCount(uint64(1000 + i))
+					_ = w0.Write()
+				}
+				_ = w0.Flush()
+				src, err = otelstef.NewMetricsReader(bytes.NewReader(cl0.buf.Bytes()))
+				if err != nil {
+					propFail("C08 frozen-flood-reader-error case=%s %v", name, err)
+					continue
+				}
+			}
+			for i := 0; i < n; i++ {
+				var res *otelstef.Resource
+				if relay {
+					if err := src.Read(pkg.ReadOptions{}); err != nil {
+						break
+					}
+					res = src.Record.Resource()
+				} else {
+					res = otelstef.NewResource()
+					res.SetDroppedAttributesCount(uint64(1000 + i))
+					res.Freeze()
+				}
+				w.Record.SetResource(res)
+				if err := w.Write(); err != nil {
+					propFail("C08 frozen-flood-write-error case=%s %v", name, err)
+					break
+				}
+			}
+			_ = w.Flush()
+			ps := parseStream(cl.buf.Bytes())
+			restarts := 0
+			maxRun, run := 0, 0
+			for i, f := range ps.frames {
+				if i == 0 {
+					continue // var header frame
+				}
+				if f.flags&byte(pkg.RestartDictionaries) != 0 {
+					restarts++
+					run = 0
+				}
+				run += f.nrec
+				if run > maxRun {
+					maxRun = run
+				}
+			}
+			stats["frozen-flood-restarts"] += restarts
+			// Resource has 3 fields: every new entry occupies at least 24 bytes in a reader.
+			bound := int(L)/24 + 2
+			if maxRun > bound {
+				propFail("C08 dict-limit-not-enforced case=%s L=%d: %d distinct frozen Resource values (>= 24 bytes each in the reader's dictionary) were written between two dictionary restarts (at most %d can fit the limit plus one record); %d restarts announced in %d records", name, L, maxRun, bound, restarts, n)
+			}
+		}
 	}
 }
